@@ -320,6 +320,16 @@ var methodBinds = map[string]methodBind{
 	"dsig.X509KeyStore.GetKeyPair": {fn: "get_key_pair", results: []string{"*rsa.PrivateKey", "[]byte"}},
 }
 
+// typed constants of other packages: qualified name -> translated expression (term and Go type)
+var qualConsts = map[string]ex{}
+
+// conversions T(x) between integer types: target type (as written) -> true; the value is kept, [int] (unbounded in the
+// model) is reduced to 64 bits
+var intConvs = map[string]bool{}
+
+// a translated method whose receiver model differs from the caller's: "<caller model>><callee model>" -> projection
+var recvCoerce = map[string]string{}
+
 // functions whose receiver is modelled by another record than Types.config (the key-selection part of the SP)
 var recvModel = map[string]string{
 	"getEncryptionCert": "keycfg", "GetEncryptionCertBytes": "keycfg", "getSigningCert": "keycfg",
@@ -414,6 +424,8 @@ type xlat struct {
 	constPrefix string // "c_" for package saml2, "t_" for package types
 	noNow       bool   // the unit's functions do not read a clock: no [now] parameter
 	recvMut     *varInfo // the function assigns fields of its receiver: the receiver is threaded and returned beside the results
+	loopDepth   int    // > 0 while the body of a loop is translated
+	elided      string // element type of the slice literal whose untyped element literal is being translated
 }
 
 // cret: the translation of `return` with result term [t]
@@ -523,7 +535,7 @@ func coqOf(t string) (string, bool) {
 	switch {
 	case t == "string" || t == "[]byte":
 		return "string", true
-	case t == "int":
+	case t == "int" || wraps64(t):
 		return "Z", true
 	case t == "bool":
 		return "bool", true
@@ -531,6 +543,8 @@ func coqOf(t string) (string, bool) {
 		return "list string", true
 	case opaqueType(t) != "":
 		return opaqueType(t), true
+	case strings.HasPrefix(t, "[]") && typeBind(t[2:]) != "":
+		return "list (" + typeBind(t[2:]) + ")", true
 	case t == "*rsa.PrivateKey":
 		return "signer", true // only as a result of GetKeyPair, never nil beside a nil error
 	case ifaceBinds[t] != "":
@@ -541,6 +555,35 @@ func coqOf(t string) (string, bool) {
 		return typeBind(t), true
 	case mapBinds[t].coq != "":
 		return mapBinds[t].coq, true
+	}
+	return "", false
+}
+
+// integer types of exactly 64 bits: arithmetic wraps around (two's complement).  [int] keeps the unbounded representation
+// of the earlier units.
+func wraps64(t string) bool { return t == "int64" || t == "time.Duration" }
+
+// untypedIntConst: an integer constant expression built from literals only (it takes the type of the other operand)
+func untypedIntConst(e ast.Expr) bool {
+	switch n := e.(type) {
+	case *ast.BasicLit:
+		return n.Kind == token.INT
+	case *ast.ParenExpr:
+		return untypedIntConst(n.X)
+	case *ast.BinaryExpr:
+		return (n.Op == token.ADD || n.Op == token.SUB || n.Op == token.MUL) && untypedIntConst(n.X) && untypedIntConst(n.Y)
+	}
+	return false
+}
+
+// arith64: the operand type of a binary operator one of whose sides has a wrapping integer type (the other side has the
+// same type or is an untyped constant)
+func arith64(n *ast.BinaryExpr, a, b ex) (string, bool) {
+	switch {
+	case wraps64(a.typ) && (b.typ == a.typ || (b.typ == "int" && untypedIntConst(n.Y))):
+		return a.typ, true
+	case wraps64(b.typ) && a.typ == "int" && untypedIntConst(n.X):
+		return b.typ, true
 	}
 	return "", false
 }
@@ -749,6 +792,9 @@ func (x *xlat) expr(e ast.Expr) ex {
 					return ex{term: "(Some EMissingSignature)", typ: "error"}
 				}
 			}
+			if c, ok := qualConsts[id.Name+"."+n.Sel.Name]; ok {
+				return c
+			}
 			unsup(n, "qualified identifier %s.%s", id.Name, n.Sel.Name)
 		}
 		b := x.expr(n.X)
@@ -930,9 +976,24 @@ func (x *xlat) binary(n *ast.BinaryExpr) ex {
 				unsup(n, "nil comparison with %s", o.typ)
 			}
 			if strings.HasPrefix(o.typ, "[]") {
-				unsup(n, "nil comparison of a slice")
-			}
-			if o.valPtr {
+				// the model does not distinguish a nil slice from an empty one: a non-empty slice is not nil, for an empty one
+				// the answer is an unknown of the translated function (a fresh boolean parameter per comparison; the
+				// comparison must run at most once per call)
+				rep, ok := coqOf(o.typ)
+				if x.loopDepth > 0 || x.clos != nil || !ok {
+					unsup(n, "nil comparison of a slice (%s) inside a loop or handler", o.typ)
+				}
+				u := x.freshName("nil_of_empty")
+				if x.needParams == nil {
+					x.needParams = map[string]bool{}
+				}
+				x.needParams["("+u+" : bool)"] = true
+				if rep == "string" {
+					t = "(bytes_is_nil " + u + " " + o.term + ")"
+				} else {
+					t = "(slice_is_nil " + u + " " + o.term + ")"
+				}
+			} else if o.valPtr {
 				t = "false"
 			} else {
 				t = "(is_nil " + o.term + ")"
@@ -940,6 +1001,11 @@ func (x *xlat) binary(n *ast.BinaryExpr) ex {
 		case a.typ == "string" && b.typ == "string":
 			t = "(" + a.term + " =?s " + b.term + ")"
 		case a.typ == "int" && b.typ == "int":
+			t = "(" + a.term + " =? " + b.term + ")%Z"
+		case wraps64(a.typ) || wraps64(b.typ):
+			if _, ok := arith64(n, a, b); !ok {
+				unsup(n, "comparison of %s and %s", a.typ, b.typ)
+			}
 			t = "(" + a.term + " =? " + b.term + ")%Z"
 		case a.typ == "bool" && b.typ == "bool":
 			t = "(Bool.eqb " + a.term + " " + b.term + ")"
@@ -951,13 +1017,16 @@ func (x *xlat) binary(n *ast.BinaryExpr) ex {
 		}
 		return ex{pres: pres, term: t, typ: "bool"}
 	case token.LSS, token.LEQ, token.GTR, token.GEQ:
-		if a.typ != "int" || b.typ != "int" {
+		if _, ok64 := arith64(n, a, b); !ok64 && (a.typ != "int" || b.typ != "int") {
 			unsup(n, "ordering on %s, %s", a.typ, b.typ)
 		}
 		op := map[token.Token]string{token.LSS: "<?", token.LEQ: "<=?", token.GTR: ">?", token.GEQ: ">=?"}[n.Op]
 		return ex{pres: append(append([]pre{}, a.pres...), b.pres...), term: "(" + a.term + " " + op + " " + b.term + ")%Z", typ: "bool"}
 	case token.ADD:
 		pres := append(append([]pre{}, a.pres...), b.pres...)
+		if t, ok := arith64(n, a, b); ok {
+			return ex{pres: pres, term: "(i64_add " + a.term + " " + b.term + ")", typ: t}
+		}
 		if a.typ == "string" && b.typ == "string" {
 			return ex{pres: pres, term: "(" + a.term + " ++ " + b.term + ")%string", typ: "string"}
 		}
@@ -965,6 +1034,10 @@ func (x *xlat) binary(n *ast.BinaryExpr) ex {
 			return ex{pres: pres, term: "(" + a.term + " + " + b.term + ")%Z", typ: "int"}
 		}
 	case token.SUB, token.MUL:
+		if t, ok := arith64(n, a, b); ok {
+			fn := map[token.Token]string{token.SUB: "i64_sub", token.MUL: "i64_mul"}[n.Op]
+			return ex{pres: append(append([]pre{}, a.pres...), b.pres...), term: "(" + fn + " " + a.term + " " + b.term + ")", typ: t}
+		}
 		if a.typ == "int" && b.typ == "int" {
 			op := map[token.Token]string{token.SUB: "-", token.MUL: "*"}[n.Op]
 			return ex{pres: append(append([]pre{}, a.pres...), b.pres...), term: "(" + a.term + " " + op + " " + b.term + ")%Z", typ: "int"}
@@ -982,12 +1055,28 @@ func (x *xlat) binary(n *ast.BinaryExpr) ex {
 }
 
 func (x *xlat) composite(n *ast.CompositeLit) ex {
-	t := x.qualifyRoot(typeStr(n.Type))
+	var t string
+	if n.Type == nil {
+		// {…} as an element of a slice literal []T{…}: the element type is T
+		if x.elided == "" || strings.HasPrefix(x.elided, "*") {
+			unsup(n, "composite literal without a type")
+		}
+		t = x.elided
+	} else {
+		t = x.qualifyRoot(typeStr(n.Type))
+	}
+	x.elided = ""
 	if strings.HasPrefix(t, "[]") {
 		var pres []pre
 		var items []string
 		for _, el := range n.Elts {
-			v := x.expr(el)
+			var v ex
+			if cl, ok := el.(*ast.CompositeLit); ok && cl.Type == nil {
+				x.elided = t[2:]
+				v = x.composite(cl)
+			} else {
+				v = x.expr(el)
+			}
 			pres = append(pres, v.pres...)
 			items = append(items, v.term)
 		}
@@ -1116,6 +1205,17 @@ func (x *xlat) call(n *ast.CallExpr) ex {
 					return ex{term: "(Some [])", typ: t}
 				}
 			}
+			if len(n.Args) == 3 {
+				// make([]T, 0, c) with literal bounds: the empty slice (capacity is not observable in the subset)
+				t := x.qualifyRoot(typeStr(n.Args[0]))
+				l, okL := n.Args[1].(*ast.BasicLit)
+				c, okC := n.Args[2].(*ast.BasicLit)
+				if strings.HasPrefix(t, "[]") && okL && okC && l.Kind == token.INT && c.Kind == token.INT && l.Value == "0" {
+					if _, err := strconv.ParseInt(c.Value, 0, 64); err == nil {
+						return ex{term: zeroOf(n, t), typ: t}
+					}
+				}
+			}
 			unsup(n, "make")
 		case "int":
 			a := x.expr(n.Args[0])
@@ -1139,6 +1239,19 @@ func (x *xlat) call(n *ast.CallExpr) ex {
 			a := x.expr(n.Args[0])
 			b := x.expr(n.Args[1])
 			return ex{pres: append(append([]pre{}, a.pres...), b.pres...), term: "(" + a.term + " ++ [" + b.term + "])", typ: a.typ}
+		}
+	}
+	if to := exprString(n.Fun); intConvs[to] && len(n.Args) == 1 {
+		// T(x) for a 64-bit integer type T
+		if id, ok := n.Fun.(*ast.Ident); (!ok || id.Obj == nil) && wraps64(to) {
+			a := x.expr(n.Args[0])
+			switch {
+			case wraps64(a.typ):
+				return ex{pres: a.pres, term: a.term, typ: to}
+			case a.typ == "int":
+				return ex{pres: a.pres, term: "(i64_of_int " + a.term + ")", typ: to}
+			}
+			unsup(n, "conversion of %s to %s", a.typ, to)
 		}
 	}
 	if r, ok := x.externCall(n); ok {
@@ -1194,7 +1307,16 @@ func (x *xlat) call(n *ast.CallExpr) ex {
 					unsup(n, "call of untranslated method %s", sel.Sel.Name)
 				}
 				var pres []pre
-				args := []string{vi.coq, "now"}
+				recvArg := vi.coq
+				if cm := recvModel[sel.Sel.Name]; cm != x.recvCur {
+					// the callee reads a part of the SP that is modelled by another record
+					proj, ok := recvCoerce[x.recvCur+">"+cm]
+					if !ok {
+						unsup(n, "call of %s (receiver model %q) from a function with receiver model %q", sel.Sel.Name, cm, x.recvCur)
+					}
+					recvArg = "(" + proj + " " + vi.coq + ")"
+				}
+				args := []string{recvArg, "now"}
 				for _, a := range n.Args {
 					v := x.expr(a)
 					pres = append(pres, v.pres...)
@@ -1221,6 +1343,15 @@ func (x *xlat) call(n *ast.CallExpr) ex {
 				return ex{pres: append(append([]pre{}, recv.pres...), a.pres...), term: "(" + f + " " + recv.term + " " + a.term + ")", typ: "bool"}
 			case "UTC":
 				return recv // an instant has no zone
+			case "Add":
+				if len(n.Args) != 1 {
+					unsup(n, "Add arity")
+				}
+				d := x.expr(n.Args[0])
+				if d.typ != "time.Duration" {
+					unsup(n, "Time.Add of %s", d.typ)
+				}
+				return ex{pres: append(append([]pre{}, recv.pres...), d.pres...), term: "(time_Add " + recv.term + " " + d.term + ")", typ: "time.Time"}
 			case "Format":
 				if c, ok := evalConst(n.Args[0], x.consts); ok && c.isStr && c.s == "2006-01-02T15:04:05Z" {
 					return ex{pres: recv.pres, term: "(format_utc_seconds " + recv.term + ")", typ: "string"}
@@ -1509,7 +1640,9 @@ func (x *xlat) block(list []ast.Stmt, cur, out, loop []*varInfo, inLoop bool) st
 		}
 		x.mutable[iv.Obj] = false
 		vi := x.declare(iv, "int", false)
+		x.loopDepth++
 		body := x.block(n.Body.List, cur, cur, cur, true)
+		x.loopDepth--
 		loopT := fmt.Sprintf("for_range (fun %s %s => %s) (zrange %s) %s", vi.coq, patOf(cur), body, bound.term, tupleOf(cur))
 		return wrapPres(bound.pres, seq(loopT), "CPanic")
 	case *ast.ExprStmt:
@@ -1642,7 +1775,9 @@ func (x *xlat) block(list []ast.Stmt, cur, out, loop []*varInfo, inLoop bool) st
 		}
 		id := n.Value.(*ast.Ident)
 		vi := x.declare(id, l.typ[2:], false)
+		x.loopDepth++
 		body := x.block(n.Body.List, x.mutVars(cur, id, vi), cur, cur, true)
+		x.loopDepth--
 		loopT := fmt.Sprintf("for_range (fun %s %s => %s) %s %s", vi.coq, patOf(cur), body, l.term, tupleOf(cur))
 		return wrapPres(l.pres, seq(loopT), "CPanic")
 	}
@@ -2399,6 +2534,8 @@ func (x *xlat) function(out *bytes.Buffer, name string) {
 	x.reassign = map[*ast.Object]bool{}
 	x.used = map[string]bool{}
 	x.fresh = 0
+	x.loopDepth = 0
+	x.elided = ""
 	var text string
 	var kind string
 	func() {
@@ -2425,13 +2562,20 @@ func (x *xlat) function(out *bytes.Buffer, name string) {
 			x.bt = &varInfo{coq: "bt", typ: "bt.tree"}
 			x.used["bt"] = true
 		}
+		var cur0 []*varInfo
 		bindParam := func(id *ast.Ident, t ast.Expr) {
 			gt := x.qualifyRoot(typeStr(t))
+			// an assigned parameter of scalar type is a mutable local initialised by the caller; an assigned receiver
+			// (sp.f = v) is threaded through the body and returned beside the results
+			assigned := false
 			recvMutated := false
 			if id.Obj != nil && x.mutable[id.Obj] {
-				if len(params) == 0 && recvModel[name] != "" && !x.reassign[id.Obj] {
-					recvMutated = true // sp.f = v: the receiver record is threaded through the body and returned
-				} else {
+				switch {
+				case len(params) == 0 && recvModel[name] != "" && !x.reassign[id.Obj]:
+					recvMutated = true
+				case gt == "string" || gt == "int" || gt == "bool" || wraps64(gt):
+					assigned = true
+				default:
 					unsup(t, "parameter %s is assigned", id.Name)
 				}
 			}
@@ -2446,7 +2590,7 @@ func (x *xlat) function(out *bytes.Buffer, name string) {
 				ct, valPtr = typeBind(gt[1:]), true // non-nil by precondition
 			case gt == "string":
 				ct = "string"
-			case gt == "int":
+			case gt == "int" || wraps64(gt):
 				ct = "Z"
 			case gt == "bool":
 				ct = "bool"
@@ -2459,6 +2603,9 @@ func (x *xlat) function(out *bytes.Buffer, name string) {
 			params = append(params, fmt.Sprintf("(%s : %s)", vi.coq, ct))
 			if recvMutated {
 				x.recvMut = vi
+			}
+			if assigned {
+				cur0 = append(cur0, vi)
 			}
 		}
 		if fd.Recv == nil || len(fd.Recv.List) != 1 || len(fd.Recv.List[0].Names) != 1 {
@@ -2513,9 +2660,8 @@ func (x *xlat) function(out *bytes.Buffer, name string) {
 		default:
 			unsup(fd, "result signature")
 		}
-		var cur0 []*varInfo
 		if x.bt != nil {
-			cur0 = []*varInfo{x.bt}
+			cur0 = append([]*varInfo{x.bt}, cur0...)
 		}
 		if x.recvMut != nil {
 			cur0 = append(cur0, x.recvMut)
@@ -2619,6 +2765,7 @@ func emitFuncs(root, types *pkgFiles, env, tenv constEnv) []byte {
 	x.build = false
 	b.WriteString("End GenBuild.\n")
 	buildOut = b.Bytes()
+	metaOut = emitMetaFuncs(x) // fifth unit: SP metadata -> GenMeta.v (unit_Meta.go)
 	// further units (gen/unit_*.go): each registers an emitter that uses the same translator state (functions translated so
 	// far stay callable) and stores its file in unitOut
 	for _, u := range extraUnits {
